@@ -315,7 +315,7 @@ class Support final {
    */
   const T &at(RelativeIndex index) const {
     DURING_TEST_CHECK_VALIDITY();
-    if (_startIndex + index >= _endIndex) {
+    if (index >= size()) {
       throw BSplineException(ErrorCode::INVALID_ACCESS);
     }
     return _grid.at(_startIndex + index);
